@@ -33,7 +33,7 @@ static std::string verdictOf(const std::string & msg, bool & named, const std::s
   return "other";
 }
 
-static void observe(vh::Ev & e, const DiagnosticReport & r, const std::string & name)
+static void observe(vh::Ev & e, const DiagnosticReport & r, const std::string & name, long long scale = 1, int ulp = 0)
 {
   bool named = false;
   const Diagnostic & d = r.diagnostics.front();
@@ -45,7 +45,12 @@ static void observe(vh::Ev & e, const DiagnosticReport & r, const std::string & 
     char * end = nullptr;
     double x = std::strtod(info.c_str(), &end);
     if (*end != 0) {ok = false;}
-    v = vh::proj(x, ok, 1e-9);
+    if (scale == 1) {v = vh::proj(x, ok, 1e-9);}
+    else {
+      // integral check-up: the printed value is the integer evaluated, (model value) * scale + (one unit up or down)
+      long long xi = std::fabs(x) < 4e18 ? (long long)std::llround(x) : 0;
+      if ((double)xi != x || (xi - ulp) % scale != 0) {ok = false;} else {v = (xi - ulp) / scale;}
+    }
     if (!ok) {v = 1000000007;}      // not the printed integer: cannot equal any value of the model
   }
   e.b("has", has).i("value", v);
@@ -56,20 +61,40 @@ struct Obj
   std::string kind;
   std::unique_ptr<Checkup<double>> c;
   std::unique_ptr<CheckupReliability> rel;
+  // the same check-ups instantiated on an integral type, with thresholds and values of seven and more digits
+  std::unique_ptr<Checkup<long long>> ci;
+  long long scale = 1; int lastUlp = 0;
   std::string name;
   // ini: -1 default diagnostic, 0..3 an initial diagnostic with that status supplied to the constructor
   Obj(const std::string & k, long long a, long long b, int ini = -1) : kind(k), name(NAMES[g_nextName++ % NAMES.size()])
   {
     Diagnostic d0 = ini < 0 ? Diagnostic() : Diagnostic((DiagnosticStatus)ini, "initial message given by the caller");
+    static size_t nth = 0;
+    if (k != "rel" && ++nth % 3 == 0) {
+      scale = 1000003;
+      if (k == "eq") {ci.reset(new CheckupEqualTo<long long>(name, a * scale, b * scale, d0));}
+      if (k == "gt") {ci.reset(new CheckupGreaterThan<long long>(name, a * scale, b * scale, d0));}
+      if (k == "lt") {ci.reset(new CheckupLowerThan<long long>(name, a * scale, b * scale, d0));}
+      return;
+    }
     if (k == "eq") {c.reset(new CheckupEqualTo<double>(name, (double)a, (double)b, d0));}
     if (k == "gt") {c.reset(new CheckupGreaterThan<double>(name, (double)a, (double)b, d0));}
     if (k == "lt") {c.reset(new CheckupLowerThan<double>(name, (double)a, (double)b, d0));}
     if (k == "rel") {rel.reset(new CheckupReliability(name, (double)a, (double)b));}
   }
-  DiagnosticReport report() const {return rel ? rel->getReport() : c->getReport();}
-  std::string first() {vh::Ev e("observe"); observe(e, report(), name); return e.done();}
+  DiagnosticReport report() const {return rel ? rel->getReport() : ci ? ci->getReport() : c->getReport();}
+  std::string first() {vh::Ev e("observe"); observe(e, report(), name, scale, lastUlp); return e.done();}
   std::string evaluate(long long k, int ulp)
   {
+    if (ci) {
+      // "one ulp above / below k" is the next integer above / below k * scale
+      DiagnosticStatus s = ci->evaluate(k * scale + ulp);
+      lastUlp = ulp;
+      vh::Ev e("evaluate");
+      e.i("k", k).i("ulp", ulp).i("ret", (int)s);
+      observe(e, report(), name, scale, ulp);
+      return e.done();
+    }
     double v = (double)k;
     if (ulp > 0) {v = std::nextafter(v, INFINITY);}
     if (ulp < 0) {v = std::nextafter(v, -INFINITY);}
@@ -81,9 +106,9 @@ struct Obj
   }
   std::string timeout()
   {
-    c->timeout();
+    if (ci) {ci->timeout();} else {c->timeout();}
     vh::Ev e("timeout");
-    observe(e, report(), name);
+    observe(e, report(), name, scale, lastUlp);
     return e.done();
   }
 };
@@ -223,7 +248,14 @@ static void lattice(vh::Rng & r, vh::Out & out, int nrandom)
     out.put(vh::Ev("worst").vec("list", st).i("r", (int)worseStatus(l)).b("allok", allOK(l)));
     std::vector<std::pair<long long, long long>> d1, i1, d2, i2, rd, ri;
     DiagnosticReport r1 = mkReport(r, 10, d1, i1), r2 = mkReport(r, 10, d2, i2);
-    r1 += r2;
+    const int alias = (int)r.range(0, 5);
+    if (alias == 0) {r1 += r1; d2 = d1; i2 = i1;}                                  // a report appended to itself
+    else if (alias == 1) {DiagnosticReport & same = r1; (r1 += r2) += same;         // chained, the second operand being the (grown) report itself
+      std::vector<std::pair<long long, long long>> dm = d1, im = i1;
+      dm.insert(dm.end(), d2.begin(), d2.end());
+      for (auto & kv : i2) {bool has = false; for (auto & o : im) {has = has || o.first == kv.first;} if (!has) {im.push_back(kv);}}
+      d1 = dm; i1 = im; d2 = dm; i2 = im;}
+    else {r1 += r2;}
     readBack(r1, rd, ri);
     out.put(vh::Ev("append").raw("d1", jsonPairs(d1)).raw("i1", jsonPairs(i1)).raw("d2", jsonPairs(d2)).raw("i2", jsonPairs(i2))
       .raw("rd", jsonPairs(rd)).raw("ri", jsonPairs(ri)));
